@@ -437,4 +437,55 @@ theorem withRepr_ok (t : V) (rest : Bytes) (h : reprOK t = true) :
     withRepr (.ok (t, rest)) = .ok (norm t, rest) := by
   simp [withRepr, torepr_ok t h]
 
+
+/-! ### soundness of the executable equality -/
+
+mutual
+theorem veq_sound : ∀ a b, veq a b = true → a = b
+  | .null, b, h => by cases b <;> simp_all [veq]
+  | .bool _, b, h => by cases b <;> simp_all [veq]
+  | .int _, b, h => by cases b <;> simp_all [veq]
+  | .float _, b, h => by cases b <;> simp_all [veq]
+  | .str _, b, h => by cases b <;> simp_all [veq]
+  | .bytes _, b, h => by cases b <;> simp_all [veq]
+  | .arr xs, b, h => by
+    cases b <;> simp [veq] at h
+    rw [veqL_sound xs _ h]
+  | .map xs, b, h => by
+    cases b <;> simp [veq] at h
+    rw [veqKV_sound xs _ h]
+theorem veqL_sound : ∀ a b, veqL a b = true → a = b
+  | [], b, h => by cases b <;> simp_all [veqL]
+  | x :: xs, b, h => by
+    cases b with
+    | nil => simp [veqL] at h
+    | cons y ys =>
+      simp only [veqL, Bool.and_eq_true] at h
+      rw [veq_sound x y h.1, veqL_sound xs ys h.2]
+theorem veqKV_sound : ∀ a b, veqKV a b = true → a = b
+  | [], b, h => by cases b <;> simp_all [veqKV]
+  | (k, v) :: xs, b, h => by
+    cases b with
+    | nil => simp [veqKV] at h
+    | cons p ys =>
+      obtain ⟨k', v'⟩ := p
+      simp only [veqKV, Bool.and_eq_true] at h
+      rw [veq_sound k k' h.1.1, veq_sound v v' h.1.2, veqKV_sound xs ys h.2]
+end
+
+theorem resEq_sound (a b : Res (V × Bytes)) (h : resEq a b = true) : a = b := by
+  cases a with
+  | ok p =>
+    obtain ⟨v, r⟩ := p
+    cases b with
+    | ok q =>
+      obtain ⟨v', r'⟩ := q
+      simp only [resEq, Bool.and_eq_true, beq_iff_eq] at h
+      rw [veq_sound v v' h.1, h.2]
+    | err e => simp [resEq] at h
+  | err e =>
+    cases b with
+    | ok q => simp [resEq] at h
+    | err e' => simp only [resEq, beq_iff_eq] at h; rw [h]
+
 end Proofs.C16
